@@ -23,6 +23,16 @@ CHECKS = {
          "DESIGN.md section 4 (C14)",
          "trusted: ref/hint.go (hint layout and reference merge)",
          "in-package runtime differential oracle over generated hint files (reference parser + reference merge)"),
+ "C01": ("exploration",
+         "Generated single-client histories on the real StorageClient/HStore compared reply-by-reply with a reference map (get + meta-get after every write, periodic full sweeps), flush/rotation/hint dumps interleaved, one child per configuration of the grid; the residence of every read (buffer, rotated buffer, head file, rotated file; compressed or not) is observed and reported. Sampled histories: the right level for a property quantified over all histories.",
+         "DESIGN.md section 4 (C01)",
+         "trusted: ref.RefMap (version arithmetic written from the property), ref value generator; open dimensions (incr versions, tombstones after rebuild) adopted",
+         "reference-model monitor (RefMap oracle) over generated histories, in-process at the StorageClient boundary"),
+ "C02": ("exploration",
+         "C01 histories with clean restarts at generated positions; at each restart the closed directory is reopened once per index-file subset (exhaustive 2^k when k<=6 in thorough) and every variant compared with the reference map; plus deterministic and randomized shutdown schedules: the post-rotation flush goroutine parked at its entry hook while Close() completes (directory copied at that instant), and flusher/hint-dumper loop bodies racing with Close under yield injection (plain and race builds).",
+         "DESIGN.md section 4 (C02)",
+         "restart = fresh store instance on a copy of the directory taken when Close returns (same process, globals re-initialised by NewHStore); tombstone versions adopted after restart as the quantifier allows",
+         "reference-model monitor + index-file fault enumeration + hook-controlled shutdown schedules (park/release, yield injection) + race detector"),
 }
 
 NOT_YET = {
